@@ -87,38 +87,41 @@ ResponseOffsetsAt(p, nb, truncated, j) ==
 \* position after consuming the response completely: past the last offset of a whole v2 batch
 ResponseOffsets(nb, truncated, j) == ResponseOffsetsAt(pos, nb, truncated, j)
 
-EndOfAt(p, nb, truncated) ==
+EndOfAt(p, nb, truncated, th) ==
   LET S == Served(cfg, p) IN
-  IF nb >= 1 /\ ~truncated /\ cfg.log[S[nb]].fmt = "v2"
+  \* (th: the header of the truncated batch arrived completely; otherwise the whole batches before it
+  \* count as fully consumed)
+  IF nb >= 1 /\ (~truncated \/ ~th) /\ cfg.log[S[nb]].fmt = "v2"
     THEN IF cfg.bug = "emptyBatchZero" /\ ResponseOffsetsAt(p, nb, truncated, 0).whole = <<>>
            THEN 1        \* defect F3: Batch.lastOffset keeps its zero value when no record was read
            ELSE cfg.log[S[nb]].last + 1
     ELSE 0
 
-EndOf(nb, truncated) == EndOfAt(pos, nb, truncated)
+EndOf(nb, truncated, th) == EndOfAt(pos, nb, truncated, th)
 
 \* RespondAt(p, ...) leaves pos, rpos and phase' to its caller
-RespondAt(p, kind, nb, truncated, j) ==
+RespondAt(p, kind, nb, truncated, th, j) ==
   /\ kind \in {"data", "cut"}
   /\ LET S == Served(cfg, p) IN
        /\ nb \in 0 .. Len(S)
        /\ truncated => nb < Len(S)
        /\ truncated => cfg.log[S[nb + 1]].fmt \notin {"v1w"} \/ j = 0     \* nothing of a cut compressed wrapper is readable
        /\ truncated => j <= Cardinality(cfg.log[S[nb + 1]].present)
-       /\ ~truncated => j = 0
+       /\ ~truncated => j = 0 /\ ~th
+       /\ (truncated /\ ~th) => j = 0
        /\ (kind = "data" /\ ~truncated) => nb >= 1 \/ Len(S) = 0
   /\ (kind = "cut" \/ truncated) => faults < cfg.maxFaults
   /\ faults' = IF kind = "cut" \/ truncated THEN faults + 1 ELSE faults
   /\ LET r == ResponseOffsetsAt(p, nb, truncated, j) IN
        /\ pending' = r.whole \o r.tail
        /\ truncFrom' = IF r.tail = <<>> THEN 0 ELSE Len(r.whole) + 1
-  /\ endPos' = EndOfAt(p, nb, truncated)
+  /\ endPos' = EndOfAt(p, nb, truncated, th)
   /\ respKind' = kind
   /\ phase' = "reading"
   /\ UNCHANGED <<cfg, version, queue, app, got, starts>>
 
-Respond(kind, nb, truncated, j) ==
-  /\ phase = "idle" /\ RespondAt(pos, kind, nb, truncated, j)
+Respond(kind, nb, truncated, th, j) ==
+  /\ phase = "idle" /\ RespondAt(pos, kind, nb, truncated, th, j)
   /\ UNCHANGED <<pos, rpos>>
 
 \* an error code instead of data
@@ -132,6 +135,19 @@ RespondError(code) ==
        [] OTHER -> FALSE
   /\ rpos' = IF code = "OutOfRange" THEN First(cfg) ELSE rpos
   /\ UNCHANGED <<cfg, pending, truncFrom, endPos, respKind, version, queue, app, got, starts>>
+
+\* the connection is lost between two fetches (idle time-out, broker restart, ...)
+ConnLost ==
+  /\ phase = "idle" /\ faults < cfg.maxFaults
+  /\ phase' = "down" /\ faults' = faults + 1
+  /\ UNCHANGED <<cfg, pos, rpos, pending, truncFrom, endPos, respKind, version, queue, app, got, starts>>
+
+\* the answer is cut inside the header of its first batch: nothing can be decoded, the client
+\* treats it as a transport error and reconnects
+RespondShort ==
+  /\ phase = "idle" /\ faults < cfg.maxFaults /\ Len(Served(cfg, pos)) > 0
+  /\ phase' = "down" /\ faults' = faults + 1
+  /\ UNCHANGED <<cfg, pos, rpos, pending, truncFrom, endPos, respKind, version, queue, app, got, starts>>
 
 \* reader.sendMessage of the next record of the response
 DeliverOne ==
@@ -192,7 +208,8 @@ AppReceive ==
 
 Next ==
   \/ Initialize \/ DeliverOne \/ DropTruncated \/ EndResponse \/ CutNow \/ AppBegin \/ AppReceive
-  \/ \E k \in {"data", "cut"}, nb \in 0 .. 3, t \in BOOLEAN, j \in 0 .. 3 : Respond(k, nb, t, j)
+  \/ ConnLost \/ RespondShort
+  \/ \E k \in {"data", "cut"}, nb \in 0 .. 3, t \in BOOLEAN, th \in BOOLEAN, j \in 0 .. 3 : Respond(k, nb, t, th, j)
   \/ \E c \in {"NotLeader", "TimedOut"} : RespondError(c)
   \/ \E o \in cfg.setTargets : SetOffset(o)
 
